@@ -42,7 +42,7 @@ FV0 == [site |-> "none", cls |-> "plain", ids |-> FALSE, prefix |-> NoneS, exp |
 Dims == [site |-> Sites, cls |-> Classes, ids |-> BOOLEAN, prefix |-> {NoneS, "milli", "3", "-2"}, exp |-> {"1", "2", "-1", "0.5", "0.3333333333333333"},
          mult |-> {"1", "1000", "0.001", "2.5", "0.30000000000000004", "123456789.12345679", "1e-05", "-6.02214076e+23"},   \* incl. reals that need 16 / 17 significant digits
          depth |-> 1..3, nmaps |-> 0..3, mapIds |-> BOOLEAN, connId |-> BOOLEAN, pairs |-> 1..3,
-         reset |-> {"none", "ordered", "unordered", "two"}, imports |-> {"none", "units", "comp", "both", "twoSources"},
+         reset |-> {"none", "ordered", "unordered", "two", "selfTest"}, imports |-> {"none", "units", "comp", "both", "twoSources"},
          twin |-> BOOLEAN]   \* a top-level component that is a structural look-alike of the nested c3 (same name: not a valid model)
 DimNames == DOMAIN Dims
 \* all vectors differing from FV0 in at most the given one / two / three dimensions
@@ -79,6 +79,8 @@ ResetsOf(fv) == CASE fv.reset = "none" -> <<>>
                   [] fv.reset = "ordered" -> <<ResetRec("2", fv, "a")>>
                   [] fv.reset = "unordered" -> <<ResetRec("unset", fv, "a")>>
                   [] fv.reset = "two" -> <<ResetRec("1", fv, "a"), ResetRec("-7", fv, "b")>>
+                  \* a reset that tests the very variable it resets (variable and test_variable are one object)
+                  [] fv.reset = "selfTest" -> <<[ResetRec("3", fv, "a") EXCEPT !.tvar = St("x", "varName", fv)]>>
 \* an encapsulation id exists only on components that take part in the encapsulation hierarchy
 Comp(n, parent, fv, math, resets, inHierarchy) ==
     [name |-> n, id |-> Id(n \o "id", "compId", fv), encId |-> IF inHierarchy THEN Id(n \o "enc", "encId", fv) ELSE NoneS, imp |-> NoneS, impId |-> NoneS, ref |-> NoneS,
